@@ -15,9 +15,9 @@ Proof. exact encode_cmp. Qed.
 Print Assumptions C10_encode_order.
 
 (* all versions of one key are contiguous, index record (revision 0) first *)
-Theorem C10_contiguous : forall k r k' r' r2, alpha k -> alpha k' -> r < two64 -> r' < two64 -> r2 < two64 ->
+Theorem C10_contiguous : forall k k' r' r2, alpha k -> alpha k' -> r' < two64 -> r2 < two64 ->
   bcmp (encode k 0) (encode k' r') <> Gt -> bcmp (encode k' r') (encode k r2) <> Gt -> k' = k.
-Proof. exact encode_contiguous. Qed.
+Proof. exact encode_contiguous0. Qed.
 Print Assumptions C10_contiguous.
 
 Theorem C10_index_first : forall k r, alpha k -> r < two64 -> bcmp (encode k 0) (encode k r) <> Gt.
@@ -64,6 +64,29 @@ Print Assumptions C10_parse_reject.
 Theorem C10_oracle_sound : forall c, c10_valid c -> c10_check c = true -> c10_oracle c = None.
 Proof. exact c10_oracle_sound. Qed.
 Print Assumptions C10_oracle_sound.
+
+(* Decode never reaches its key slice on inputs shorter than magic + split byte + revision: the model's
+   truncated subtraction there is unreachable, as the out-of-range slice is in the code *)
+Theorem C10_decode_short : forall ik, (length ik < 13)%nat -> forall k r, decode ik <> DecOk k r.
+Proof. exact decode_short. Qed.
+Print Assumptions C10_decode_short.
+
+(* prefixes with no end (empty, all 0xff) are inside the alphabet and outside C10_prefix_bounds: the bound
+   computed for them encloses nothing. The one call site, getCompactBorders, only passes slash-terminated
+   prefixes, which always have an end (case kind KBord ties that call site on every run) *)
+Theorem C10_with_slash_has_end : forall p, prefix_end_opt (with_slash p) <> None.
+Proof. exact with_slash_has_end. Qed.
+Print Assumptions C10_with_slash_has_end.
+Example C10_prefix_fallthrough_refuted :
+  has_prefix [255] [255; 97] = true /\
+  in_bounds (encode [255] 0) (encode (prefix_end [255]) 0) (encode [255; 97] 1) = false.
+Proof. vm_compute. split; reflexivity. Qed.
+Example C10_ex_prefix_end_opt : prefix_end_opt [47; 255] = Some [48] /\ prefix_end_opt [] = None /\ prefix_end_opt [255; 255] = None.
+Proof. vm_compute. repeat split; reflexivity. Qed.
+(* the hypotheses of C10_contiguous on concrete keys: a record between two records of /a is a record of /a *)
+Example C10_ex_contiguous_hyps :
+  bcmp (encode [47; 97] 0) (encode [47; 97] 7) <> Gt /\ bcmp (encode [47; 97] 7) (encode [47; 97] 9) <> Gt.
+Proof. vm_compute. split; discriminate. Qed.
 
 (* the check evaluates validity (64-bit revisions) itself, so every case that passes it on a run is covered *)
 Theorem C10_oracle_sound_checked : forall c, c10_check c = true -> c10_oracle c = None.
